@@ -175,18 +175,6 @@ theorem unionIR_spec {unify : Bool} {ts : List TType} {t : TType} (h : unionIR u
     · simp at h
   · simp at h
 
-/-- `join` keeps the left key and the types of the left key fields come first in the row -/
-theorem join_key {l r t : TType} (h : join l r = some t) : t.key = l.key ∧ t.globals = l.globals ++ r.globals := by
-  unfold join at h
-  split at h
-  · split at h
-    · simp at h
-    · simp only [] at h
-      split at h
-      · simp at h
-      · simp only [Option.some.injEq] at h; subst h; exact ⟨rfl, rfl⟩
-  · simp at h
-
 end HailVerif.TableType
 
 namespace HailVerif.TableType
@@ -267,5 +255,198 @@ theorem unionIR_eq_reported (unify : Bool) (ts : List TType) : unionIR unify ts 
                 rintro c ⟨t, ht, rfl⟩
                 refine ⟨?_, keyeq t ht⟩
                 simp only [hkeys t ht, hkf]
+
+/-! ## `Table.join`: the renaming makes the struct concatenations duplicate-free -/
+
+theorem dedupName_fresh {used : List String} {n m : String} (h : dedupName used n = some m) : m ∉ used := by
+  unfold dedupName at h
+  split at h
+  · rename_i hc
+    simp only [Option.some.injEq] at h
+    subst h
+    simpa using hc
+  · have := List.find?_some h
+    simpa using this
+
+/-- `deduplicate`: as many names as ids, pairwise distinct, none of them used before -/
+theorem dedupAll_spec : ∀ (ids used new : List String), dedupAll used ids = some new →
+    new.length = ids.length ∧ new.Nodup ∧ ∀ n ∈ new, n ∉ used := by
+  intro ids
+  induction ids with
+  | nil => intro used new h; simp [dedupAll] at h; subst h; simp
+  | cons a r ih =>
+    intro used new h
+    simp only [dedupAll] at h
+    split at h
+    · simp at h
+    · rename_i m hm
+      cases hr : dedupAll (m :: used) r with
+      | none => simp [hr] at h
+      | some rest =>
+        simp only [hr, Option.map_some, Option.some.injEq] at h
+        subst h
+        obtain ⟨hl, hn, hf⟩ := ih _ _ hr
+        refine ⟨by simp [hl], List.nodup_cons.2 ⟨fun hm' => (hf m hm') (by simp), hn⟩, ?_⟩
+        intro n hn'
+        simp only [List.mem_cons] at hn'
+        rcases hn' with rfl | hn'
+        · exact dedupName_fresh hm
+        · exact fun hu => hf n hn' (List.mem_cons_of_mem _ hu)
+
+theorem names_renameFields (fs : FieldList) (new : List String) (h : new.length ≤ fs.length) :
+    names (renameFields fs new) = new := by
+  simp only [names, renameFields, List.map_map]
+  have : ((fun p : String × HType => p.1) ∘ fun p : (String × HType) × String => (p.2, p.1.2)) = Prod.snd := by
+    funext p; rfl
+  rw [this]
+  exact List.map_snd_zip h
+
+theorem setF_of_not_mem (a : FieldList) (n : String) (t : HType) (h : n ∉ names a) : setF a n t = a ++ [(n, t)] := by
+  induction a with
+  | nil => rfl
+  | cons p r ih =>
+    obtain ⟨m, u⟩ := p
+    simp only [names, List.map_cons, List.mem_cons, not_or] at h
+    simp only [setF]
+    rw [if_neg (fun e => h.1 e.symm)]
+    simp only [List.cons_append, List.cons.injEq, true_and]
+    exact ih h.2
+
+/-- a dict update with fresh, pairwise distinct names is a concatenation -/
+theorem insertFields_disjoint : ∀ (b a : FieldList), (names b).Nodup → (∀ n ∈ names b, n ∉ names a) →
+    insertFields a b = a ++ b := by
+  intro b
+  induction b with
+  | nil => intro a _ _; simp [insertFields]
+  | cons p r ih =>
+    intro a hn hd
+    obtain ⟨n, t⟩ := p
+    simp only [names, List.map_cons, List.nodup_cons] at hn
+    simp only [insertFields]
+    rw [setF_of_not_mem a n t (hd n (by simp [names]))]
+    rw [ih (a ++ [(n, t)]) hn.2]
+    · simp
+    · intro m hm
+      simp only [names, List.map_append, List.map_cons, List.map_nil, List.mem_append, List.mem_singleton, not_or]
+      refine ⟨hd m (by simp only [names, List.map_cons, List.mem_cons]; exact Or.inr hm), ?_⟩
+      intro e
+      subst e
+      exact hn.1 hm
+
+/-- … and then the engine's strict concatenation succeeds with the same result -/
+theorem concat_agree {a b : FieldList} (hn : (names b).Nodup) (hd : ∀ n ∈ names b, n ∉ names a) :
+    concatStrict a b = concatPy a b := by
+  unfold concatStrict concatPy
+  rw [insertFields_disjoint b a hn hd]
+  simp only [hn, decide_true, Bool.not_true, Bool.or_false]
+  split
+  · rename_i h
+    simp only [List.any_eq_true, List.contains_iff_mem] at h
+    obtain ⟨n, hm, hc⟩ := h
+    exact absurd hc (hd n hm)
+  · rfl
+
+theorem lookupF_mem {fs : FieldList} {n : String} {t : HType} (h : lookupF fs n = some t) : n ∈ names fs := by
+  induction fs with
+  | nil => simp [lookupF] at h
+  | cons p r ih =>
+    obtain ⟨m, u⟩ := p
+    simp only [lookupF] at h
+    simp only [names, List.map_cons, List.mem_cons]
+    split at h
+    · rename_i e; exact Or.inl e.symm
+    · exact Or.inr (ih h)
+
+theorem keyFields_subset (row : FieldList) : ∀ (ks : List String) (fs : FieldList), keyFields row ks = some fs →
+    ∀ n ∈ names fs, n ∈ names row := by
+  intro ks
+  induction ks with
+  | nil => intro fs h; simp [keyFields] at h; subst h; simp [names]
+  | cons k r ih =>
+    intro fs h
+    simp only [keyFields] at h
+    split at h
+    · rename_i ty fs' h1 h2
+      simp only [Option.some.injEq] at h
+      subst h
+      intro n hn
+      simp only [names, List.map_cons, List.mem_cons] at hn
+      rcases hn with rfl | hn
+      · exact lookupF_mem h1
+      · exact ih fs' h2 n hn
+    · simp at h
+
+theorem valueFields_subset (t : TType) : ∀ n ∈ names (valueFields t), n ∈ names t.row := by
+  intro n hn
+  simp only [names, valueFields, List.mem_map, List.mem_filter] at hn ⊢
+  obtain ⟨p, ⟨hp, _⟩, rfl⟩ := hn
+  exact ⟨p, hp, rfl⟩
+
+/-- what `Table.join`'s renaming achieves: the new names of the right table's value fields and globals are pairwise distinct
+and none of them is a field name of the left table -/
+theorem renameRight_spec {l r : TType} {vs gs : FieldList} (h : renameRight l r = some (vs, gs)) :
+    (names vs ++ names gs).Nodup ∧ ∀ n ∈ names vs ++ names gs, n ∉ allNames l := by
+  unfold renameRight at h
+  simp only [Option.map_eq_some_iff, Prod.mk.injEq] at h
+  obtain ⟨new, hnew, rfl, rfl⟩ := h
+  obtain ⟨hl, hn, hf⟩ := dedupAll_spec _ _ _ hnew
+  simp only [List.length_append, names, List.length_map] at hl
+  have e1 : names (renameFields (valueFields r) (new.take (valueFields r).length)) = new.take (valueFields r).length :=
+    names_renameFields _ _ (by simp; omega)
+  have e2 : names (renameFields r.globals (new.drop (valueFields r).length)) = new.drop (valueFields r).length :=
+    names_renameFields _ _ (by simp; omega)
+  rw [e1, e2, List.take_append_drop]
+  exact ⟨hn, hf⟩
+
+/-- **the emitted `TableJoin` is well typed, with the type the `Table` reports**: after the renaming the engine's strict struct
+concatenations succeed and give what the Python dict updates give -/
+theorem joinIR_eq_reported (l r : TType) : joinIR l r = joinReported l r := by
+  unfold joinIR joinReported joinWith
+  split
+  · rename_i kl kr vs gs hkl _ hrr
+    obtain ⟨hn, hf⟩ := renameRight_spec hrr
+    rw [List.nodup_append] at hn
+    have hg : concatStrict l.globals gs = concatPy l.globals gs := by
+      apply concat_agree hn.2.1
+      intro n hm h
+      exact hf n (List.mem_append_right _ hm) (by simp only [allNames]; exact List.mem_append_left _ h)
+    have hr : concatStrict (kl ++ valueFields l) vs = concatPy (kl ++ valueFields l) vs := by
+      apply concat_agree hn.1
+      intro n hm h
+      apply hf n (List.mem_append_left _ hm)
+      simp only [allNames]
+      apply List.mem_append_right
+      simp only [names, List.map_append, List.mem_append] at h
+      rcases h with h | h
+      · exact keyFields_subset l.row l.key kl hkl n h
+      · exact valueFields_subset l n h
+    rw [hg, hr]
+  · rfl
+
+/-- `join` keeps the left key; the globals are the left globals followed by the (renamed) right globals, the row starts with
+the left key fields and the left value fields -/
+theorem join_shape {l r t : TType} (h : joinIR l r = some t) :
+    t.key = l.key ∧ ∃ kl vs gs, keyType l = some kl ∧ renameRight l r = some (vs, gs) ∧
+      t.globals = l.globals ++ gs ∧ t.row = kl ++ valueFields l ++ vs := by
+  unfold joinIR joinWith at h
+  split at h
+  · rename_i kl kr vs gs hkl _ hrr
+    split at h
+    · simp at h
+    · split at h
+      · rename_i g row hg hrow
+        simp only [Option.some.injEq] at h
+        subst h
+        refine ⟨rfl, kl, vs, gs, hkl, hrr, ?_, ?_⟩
+        · unfold concatStrict at hg
+          split at hg
+          · simp at hg
+          · simpa using hg.symm
+        · unfold concatStrict at hrow
+          split at hrow
+          · simp at hrow
+          · simpa using hrow.symm
+      · simp at h
+  · simp at h
 
 end HailVerif.TableType
